@@ -1,7 +1,120 @@
 """Bound tables: which harness instances make up each property's quick / thorough tier (DESIGN §4)."""
-from vdriver import Inst, run_tool
+import os
+from vdriver import Inst, run_tool, ROOT
 
 PLAN = {}
+
+GEO_STUBS = ("AttackGenerator::compute_{rook,bishop,queen,knight,king,pawn}_attacks -> loop-free geometry (discharged by C09)",)
+
+# ---- C10 -------------------------------------------------------------------------------------------
+_c10_fn = ("Board::colored_attacks", "Board::colored_pawn_attacks", "Board::is_check", "State::is_check", "Board::attack_map (OnceCell)",
+           "AttackMap::from_occupancy", "AttackGenerator::compute (dispatcher)", "BitBoard::pop/first_one/set_raw/test", "Board::new")
+def _c10_att(name, u, tiers, timeout, mem):
+    return Inst("c10::" + name, sub="C10.a", tiers=tiers, unwind=8, unwindset=(("from_occupancy#0", u + 2),), timeout=timeout, mem_gb=mem,
+                functions=_c10_fn, stubs=GEO_STUBS,
+                bounds="arbitrary placement (one king each, disjoint, no pawn on ranks 1/8), <= %d men per kind and colour, symbolic target square" % u)
+PLAN["C10"] = {
+    "feature": "c10",
+    "exhaustive": False,
+    "bounds": "arbitrary placements with at most u men per kind and colour (quick u = 2, thorough u = 3: up to 32 men, never more "
+              "than three alike); symbolic target square; <= 3 queries/clones before a fourth query (<= 1 man per kind); "
+              "piece_at lemma: no bound",
+    "outside": ["more than u men of one kind and colour (e.g. eight pawns)"],
+    "trusted": ["rustc / kani-compiler / CBMC", "square-centric reference attacked_ref (harness/common/rules.rs)"],
+    "assumptions": [],
+    "insts": [
+        _c10_att("attacks_white_u2", 2, ("quick", "thorough"), 1200, 6),
+        _c10_att("attacks_black_u2", 2, ("quick", "thorough"), 1200, 6),
+        _c10_att("attacks_white_u3", 3, ("thorough",), 3600, 12),
+        _c10_att("attacks_black_u3", 3, ("thorough",), 3600, 12),
+        Inst("c10::lemma_piece_at", sub="C10.c", unwind=8, timeout=600, functions=("Board::piece_at", "Board::occupancy", "Board::vacancy", "Board::new"),
+             bounds="arbitrary placement, symbolic square; no bound"),
+        Inst("c10::order_and_clone_independence", sub="C10.b", unwind=8, unwindset=(("from_occupancy#0", 3),), timeout=1800, mem_gb=16,
+             functions=_c10_fn + ("<Board as Clone>::clone", "<Board as PartialEq>::eq"), stubs=GEO_STUBS,
+             bounds="<= 1 man per kind and colour; 3 symbolic steps from {4 attack-set queries, 2 check queries, clone-and-continue}, then a symbolic query"),
+        Inst("c10::reach_witness", sub="vacuity", unwind=8, unwindset=(("from_occupancy#0", 3),), timeout=600, expect="fail"),
+    ],
+}
+
+# ---- C12 -------------------------------------------------------------------------------------------
+_c12_parse = ("<San as TryFromNotation<MoveQuery>>::try_from_notation", "notation::try_from_notation", "MoveQuery setters", "MoveQuery::by_castling")
+PLAN["C12"] = {
+    "feature": "c12",
+    "exhaustive": False,
+    "bounds": "every SAN spelling assembled from optional components (piece letter, origin file/rank, 'x', destination, '='?, "
+              "promotion, '+'/'#'), text <= 9 bytes; matcher and coordinate text: any position (unbounded placement), any "
+              "pseudo-legal move value of any constructor class",
+    "outside": ["position-level uniqueness of a SAN spelling among the *legal* moves of a position (needs the legal move list; see "
+                "DESIGN §4.7)", "the `bestmove` line printed by uci.rs"],
+    "trusted": ["rustc / kani-compiler / CBMC"],
+    "assumptions": ["moves are pseudo-legal moves of a structurally consistent position (so that move values are the ones the generator builds)"],
+    "insts": [
+        Inst("c12::san_grammar_roundtrip", sub="C12.a", unwind=12, timeout=1200, mem_gb=8, functions=_c12_parse, bounds="all spellings of the grammar, <= 9 bytes"),
+        Inst("c12::san_castle_texts", sub="C12.a", unwind=12, timeout=600, functions=_c12_parse + ("MoveQuery::test", "Move::by_castling"), bounds="O-O / O-O-O with optional +/#"),
+        Inst("c12::matcher_semantics", sub="C12.b", unwind=12, timeout=1800, mem_gb=8, functions=_c12_parse + ("MoveQuery::test",),
+             bounds="all spellings x any pseudo-legal move of any position"),
+        Inst("c12::lan_text", sub="C12.c", unwind=6, timeout=1200, mem_gb=8,
+             functions=("<Lan as IntoNotation<Move>>::into_notation", "<Square as Display>::fmt", "<File as Display>::fmt", "<Rank as Display>::fmt",
+                        "Square::try_from(&str)", "MoveQuery::by_moving_from_to", "MoveQuery::set_promotion", "MoveQuery::test"),
+             bounds="any pseudo-legal move of any position; text written into a fixed 8-byte sink"),
+        Inst("c12::reach_witness", sub="vacuity", unwind=12, timeout=600, expect="fail"),
+    ],
+}
+
+# ---- C14 -------------------------------------------------------------------------------------------
+_c14_fn = ("<San as TryFromNotation<MoveQuery>>::try_from_notation", "notation::try_from_notation")
+PLAN["C14"] = {
+    "feature": "c14",
+    "exhaustive": False,
+    "bounds": "SAN: every valid UTF-8 string of <= 6 bytes (quick) / <= 8 bytes (thorough); Square::try_from: <= 4 bytes; FEN: the "
+              "field parsers behind the regex gate on every input the gate admits, placement <= 24 bytes (quick) / <= 48 bytes "
+              "(thorough), castling field <= 4 bytes",
+    "outside": ["the UCI command loop (Client::exec owns stdin and spawns threads)", "the regex gate itself (Regex::new at run time)",
+                "longer strings"],
+    "trusted": ["rustc / kani-compiler / CBMC", "regex crate: only strings matching FEN_REGEX reach the field parsers"],
+    "assumptions": ["FEN field inputs are restricted to what regex group 1 / group 4 admit"],
+    "insts": [
+        Inst("c14::san_any_string_le4", sub="C14 SAN", unwind=7, timeout=600, functions=_c14_fn, bounds="all valid UTF-8 strings <= 4 bytes"),
+        Inst("c14::san_any_string_le6", sub="C14 SAN", unwind=9, timeout=1800, mem_gb=8, functions=_c14_fn, bounds="all valid UTF-8 strings <= 6 bytes"),
+        Inst("c14::san_any_string_le8", sub="C14 SAN", tiers=("thorough",), unwind=11, timeout=7200, mem_gb=16, functions=_c14_fn, bounds="all valid UTF-8 strings <= 8 bytes"),
+        Inst("c14::square_any_string_le4", sub="C14 square", unwind=7, timeout=600, functions=("Square::try_from(&str)", "File::from_char", "Rank::from_char"), bounds="all valid UTF-8 strings <= 4 bytes"),
+        Inst("c14::fen_placement_le24", sub="C14 FEN", unwind=26, unwindset=(("Board as core::convert::From", 66), ("from_rS", 66)), timeout=3600, mem_gb=12,
+             functions=("Board::try_parse (via hook)", "PieceIndex::try_parse", "Board::from(&ArrayMap)", "Square::try_from(u8)"), bounds="placement fields <= 24 bytes over the regex alphabet, 7 slashes"),
+        Inst("c14::fen_placement_le48", sub="C14 FEN", tiers=("thorough",), unwind=50, unwindset=(("Board as core::convert::From", 66),), timeout=7200, mem_gb=16,
+             functions=("Board::try_parse (via hook)", "PieceIndex::try_parse", "Board::from(&ArrayMap)", "Square::try_from(u8)"), bounds="placement fields <= 48 bytes over the regex alphabet, 7 slashes"),
+        Inst("c14::fen_castle_field", sub="C14 FEN", unwind=7, timeout=600, functions=("ArrayMap<Color, CastleRights>::try_parse (via hook)",), bounds="castling fields <= 4 bytes of [KQkq|]"),
+        Inst("c14::reach_witness", sub="vacuity", unwind=7, timeout=600, expect="fail"),
+    ],
+}
+
+# ---- C15 -------------------------------------------------------------------------------------------
+_c15_fn = ("TranspositionTableAccess::with_tables/insert/find/entries/max_entries", "TranspositionTable::with_bucket_count/insert/find/entries/max_entries",
+           "TranspositionBucket::empty/find/insert_or_replace", "TranspositionInsertionResult::inserted", "RwLock read/write (sequential model)",
+           "searcher::verif_hooks::{Table, Entry} (forwarding wrapper)")
+PLAN["C15"] = {
+    "feature": "c15",
+    "exhaustive": False,
+    "bounds": "sequential semantics: every history of <= 10 inserts + one lookup on 1 table x 1 bucket (forces the full-bucket "
+              "replacement path); every history of <= 2 inserts + lookup on 1x2 and of 1 insert + lookup on 2x1, 2x2, 3x5 (routing with adversarially aligned "
+              "keys; longer routed histories exhaust memory: symbolic routing through heap-allocated tables); one insert + lookups from an arbitrary bucket satisfying the representation invariant (histories of any "
+              "length on one bucket, by induction)",
+    "outside": ["thread interleavings: Kani has no thread model; every operation of TranspositionTableAccess holds exactly one RwLock "
+                "for its whole duration, so concurrent behaviour is a linearisation of the sequential behaviour decided here (argument from reading)",
+                "tables with more than 3 x 5 buckets"],
+    "trusted": ["rustc / kani-compiler / CBMC", "Kani's sequential model of std::sync::RwLock"],
+    "assumptions": ["entries carry moves built by Move::by_moving with symbolic colour/kind/squares; depth fields < 2^16"],
+    "insts": [
+        Inst("c15::history_1x1_n9", crate="engine", sub="C15.a", tiers=("quick",), unwind=12, timeout=3600, mem_gb=12, functions=_c15_fn, bounds="1x1, <= 9 inserts, symbolic keys/entries/query"),
+        Inst("c15::history_1x1_n10", crate="engine", sub="C15.a", tiers=("thorough",), unwind=13, timeout=7200, mem_gb=16, functions=_c15_fn, bounds="1x1, <= 10 inserts"),
+        Inst("c15::routed_2x2_n1", crate="engine", sub="C15.a", unwind=10, timeout=3600, mem_gb=12, functions=_c15_fn, bounds="2 tables x 2 buckets, <= 1 insert + lookup"),
+        Inst("c15::routed_1x2_n2", crate="engine", sub="C15.a", unwind=10, timeout=3600, mem_gb=12, functions=_c15_fn, bounds="1 x 2, <= 2 inserts + lookup"),
+        Inst("c15::routed_2x1_n1", crate="engine", sub="C15.a", unwind=10, timeout=3600, mem_gb=12, functions=_c15_fn, bounds="2 x 1, <= 1 insert + lookup"),
+        Inst("c15::routed_3x5_n1", crate="engine", sub="C15.a", tiers=("thorough",), unwind=10, timeout=3600, mem_gb=12, functions=_c15_fn, bounds="3 x 5, <= 1 insert + lookup"),
+        Inst("c15::step_from_arbitrary_bucket", crate="engine", sub="C15.b", unwind=10, timeout=3600, mem_gb=12, functions=_c15_fn + ("verif_hooks::Table::from_slots/slot",),
+             bounds="arbitrary bucket (8 symbolic slots under the representation invariant), one insert, symbolic lookups"),
+        Inst("c15::reach_witness", crate="engine", sub="vacuity", unwind=10, timeout=600, expect="fail"),
+    ],
+}
 
 # ---- C20 -------------------------------------------------------------------------------------------
 _c20_fn = ("Move::by_moving", "Move::by_capturing", "Move::by_promoting", "Move::by_capture_promoting",
@@ -27,6 +140,87 @@ PLAN["C20"] = {
     ],
 }
 
+
+# ---- C01 -------------------------------------------------------------------------------------------
+_c01a_fn = ("PseudoLegalMove::new", "PseudoLegalMove::try_as_legal_move", "State::by_performing_move", "Board::new", "Board::colored_attacks",
+            "AttackMap::from_occupancy", "AttackGenerator::compute (dispatcher)", "Board::piece_occupancy")
+_c01b_fn = ("MoveGenerator::compute_psuedo_legal_moves_into", "MoveGenerator::compute_{pawn,knight,king,bishop,rook,queen}_moves",
+            "GameStateHelper::{expand_moves,own_piece,own_pieces,opposing_pieces,opposing_attacks,own_castle_rights,own_backrank_mask,own_pawn_home_rank_mask}",
+            "Board::piece_at", "Board::colored_attacks", "AttackMap::from_occupancy", "BitBoard::shift/iter_ones", "Move constructors",
+            "CASTLE_PATH_MASKS / CASTLE_CHECK_MASKS")
+PUSH_STUB = ("Vec::push -> write below capacity, asserts len < capacity (no reallocation path)",)
+
+
+def _c01_filter(name, u, tiers, timeout, mem):
+    return Inst("c01::" + name, sub="C01.a", tiers=tiers, unwind=8, unwindset=(("from_occupancy#0", u + 2),), timeout=timeout, mem_gb=mem,
+                functions=_c01a_fn, stubs=GEO_STUBS,
+                bounds="any legal position with <= %d opposing men per kind (own side unbounded), any candidate move of the class" % u)
+
+
+def _c01_gen(name, own_max, dests, tiers, timeout, mem, maxlen, opp_max=1):
+    """own_max: most own men of one kind; dests: largest destination count of one man; maxlen: MAX of the family."""
+    us = (
+        ("expand_moves", dests + 2),
+        ("compute_pawn_moves", 6),
+        ("compute_knight_moves", own_max + 2), ("compute_bishop_moves", own_max + 2), ("compute_rook_moves", own_max + 2),
+        ("compute_queen_moves", own_max + 2), ("compute_king_moves", 4),
+        ("from_occupancy#0", max(own_max, opp_max) + 2), ("from_occupancy#1", 8),
+        ("piece_at#0", 8), ("piece_at#1", 4),
+        ("find_in_list", maxlen + 2),
+        ("family", 6),
+    )
+    return Inst("c01::" + name, sub="C01.b", tiers=tiers, unwind=max(dests + 2, 8), unwindset=us, nomem=True, timeout=timeout, mem_gb=mem,
+                functions=_c01b_fn, stubs=GEO_STUBS + PUSH_STUB,
+                bounds="family %s: kinds and side concrete, squares (and rights / ep target where present) symbolic; legal positions" % name)
+
+
+PLAN["C01"] = {
+    "feature": "c01",
+    "exhaustive": False,
+    "bounds": "a. legality filter: any legal position with <= u opposing men per kind (quick u = 2, thorough u = 3), every candidate move; "
+              "b. candidate generator: families of kings + <= 3 men with concrete kinds and side, symbolic squares/rights/ep; "
+              "glue lemma legal => candidate: no bound. The filter loop of compute_legal_moves_into and perft are argued, not decided.",
+    "outside": ["more men on the generating side than the family's", "the six-line filter loop of compute_legal_moves_into, MoveGenerationBuffer, "
+                "MoveSet and the perft walk (each MoveResult carries a whole State; pushing them at a symbolic index exhausts memory, DESIGN §2 probe 23)"],
+    "trusted": ["rustc / kani-compiler / CBMC", "reference rules (harness/common/rules.rs)"],
+    "assumptions": ["positions are legal positions (invariant of the property's quantifier)"],
+    "insts": [
+        _c01_filter("filter_pieces_white_u2", 2, ("quick", "thorough"), 3600, 10),
+        _c01_filter("filter_pieces_black_u2", 2, ("quick", "thorough"), 3600, 10),
+        _c01_filter("filter_king_white_u2", 2, ("quick", "thorough"), 3600, 10),
+        _c01_filter("filter_king_black_u2", 2, ("quick", "thorough"), 3600, 10),
+        _c01_filter("filter_pawn_white_u2", 2, ("quick", "thorough"), 3600, 10),
+        _c01_filter("filter_pawn_black_u2", 2, ("quick", "thorough"), 3600, 10),
+        _c01_filter("filter_pieces_white_u3", 3, ("thorough",), 7200, 16),
+        _c01_filter("filter_pieces_black_u3", 3, ("thorough",), 7200, 16),
+        _c01_filter("filter_king_white_u3", 3, ("thorough",), 7200, 16),
+        _c01_filter("filter_king_black_u3", 3, ("thorough",), 7200, 16),
+        _c01_filter("filter_pawn_white_u3", 3, ("thorough",), 7200, 16),
+        _c01_filter("filter_pawn_black_u3", 3, ("thorough",), 7200, 16),
+        Inst("c01::lemma_legal_moves_are_candidates", sub="C01 glue", timeout=1800, mem_gb=8, functions=("(reference only: rules::legal_ref, rules::gen_pseudo)",),
+             bounds="any legal position, any coordinates; no bound"),
+        _c01_gen("gen_kk_white", 1, 8, ("quick", "thorough"), 3600, 10, 8),
+        _c01_gen("gen_kk_black", 1, 8, ("quick", "thorough"), 3600, 10, 8),
+        _c01_gen("gen_kn_k_white", 1, 8, ("quick", "thorough"), 3600, 10, 16),
+        _c01_gen("gen_kn_k_black", 1, 8, ("quick", "thorough"), 3600, 10, 16),
+        _c01_gen("gen_kn_kn_white", 1, 8, ("thorough",), 3600, 10, 16),
+        _c01_gen("gen_kr_k_white", 1, 14, ("thorough",), 7200, 12, 22),
+        _c01_gen("gen_kr_k_black", 1, 14, ("thorough",), 7200, 12, 22),
+        _c01_gen("gen_kb_k_white", 1, 13, ("thorough",), 7200, 12, 21),
+        _c01_gen("gen_kb_k_black", 1, 13, ("thorough",), 7200, 12, 21),
+        _c01_gen("gen_kq_k_white", 1, 27, ("thorough",), 10800, 16, 35),
+        _c01_gen("gen_kq_k_black", 1, 27, ("thorough",), 10800, 16, 35),
+        _c01_gen("gen_kp_kn_white", 1, 8, ("quick", "thorough"), 3600, 10, 16),
+        _c01_gen("gen_kp_kn_black", 1, 8, ("quick", "thorough"), 3600, 10, 16),
+        _c01_gen("gen_kp_kp_ep_white", 1, 8, ("quick", "thorough"), 3600, 10, 12),
+        _c01_gen("gen_kp_kp_ep_black", 1, 8, ("quick", "thorough"), 3600, 10, 12),
+        _c01_gen("gen_castle_white", 2, 14, ("quick", "thorough"), 7200, 12, 40),
+        _c01_gen("gen_castle_black", 2, 14, ("quick", "thorough"), 7200, 12, 40),
+        Inst("c01::reach_witness", sub="vacuity", unwind=10, nomem=True, timeout=1800, expect="fail",
+             unwindset=(("expand_moves", 10), ("compute_pawn_moves", 6), ("compute_knight_moves", 3), ("compute_bishop_moves", 3), ("compute_rook_moves", 3),
+                        ("compute_queen_moves", 3), ("compute_king_moves", 4), ("from_occupancy#0", 3), ("from_occupancy#1", 8), ("piece_at#0", 8), ("piece_at#1", 4), ("family", 6))),
+    ],
+}
 
 # ---- C02 -------------------------------------------------------------------------------------------
 _c02_fn = ("State::by_performing_move", "State::new", "Board::new", "Board::piece_map/piece_occupancy/occupancy/colored_occupancy",
@@ -56,7 +250,7 @@ PLAN["C02"] = {
 
 # ---- C09 -------------------------------------------------------------------------------------------
 def gen_tables(workdir):
-    rc, out = run_tool("tabledump", ["/verif/harness/core/src/gen_tables.rs"], workdir)
+    rc, out = run_tool("tabledump", [os.path.join(ROOT, "harness/core/src/gen_tables.rs")], workdir)
     if rc != 0:
         return False, "tabledump failed (hook attacks::verif_hooks missing or /repo does not build):\n" + out[-2000:]
     return True, ""
